@@ -603,6 +603,20 @@ func (u *Unit) step(s *State, in ssa.Instruction) {
 			t := u.load(s, u.addrOf(s, x.X))
 			t.T = x.Type()
 			s.regs[x] = t
+			if t.Sort == "Slice" && !strings.HasPrefix(t.S, "(mk_slice") {
+				// every slice value in memory is well formed
+				w := fmt.Sprintf("(wfSlice %s)", t.S)
+				dup := false
+				for i := len(s.pc) - 1; i >= 0 && i >= len(s.pc)-40; i-- {
+					if s.pc[i] == w {
+						dup = true
+						break
+					}
+				}
+				if !dup {
+					s.assume(w)
+				}
+			}
 		case token.NOT:
 			s.regs[x] = Term{"(not " + u.val(s, x.X).S + ")", "Bool", x.Type()}
 		case token.SUB:
